@@ -273,6 +273,102 @@ theorem encryptTemp_conformant (H : Bytes → Bytes) (E : Bytes → Bytes → By
 example : (∀ x, (lenHash x).length = 20) ∧ (2 ^ 255 : Nat) < 2 ^ 256 ∧ (1 : Nat) < 2 ^ 128 ∧
     15 ≤ (zeros 16).length := ⟨lenHash_length, by decide, by decide, by decide⟩
 
+/-! ## every call on its own: the caller's buffers (byte level), and results that depend on EVERY argument
+
+The functions of the model are functions: a call's result is determined by the call's arguments, whatever
+calls came before ("for every key, IV and input", "keys derived from the TWO nonces"). The theorems below say
+what that excludes on the side of the code: a result remembered from an earlier call and looked up by only
+part of the arguments. The tie runs such sequences against the real code (`c05.seq` / `c05.seqip`, one argument
+changing from call to call). -/
+
+/-- **The caller's buffers are never modified — the whole clause on the byte level**, for EVERY input length
+(accepted or refused) and every previous content of the output buffer: after `doAES256IGEencrypt` /
+`doAES256IGEdecrypt` the caller's input buffer holds what it held, and when the call is refused the output
+buffer does too. (Key and IV are not memory of the register model at all: `NewCipher` copies the IV into the
+cipher's own registers and hands the key to `aes.NewCipher`; no register ever points at them. The harness
+compares the whole caller array — key, IV, input, guard zones — with its image from before the call.) -/
+theorem ige_buffers_unchanged (E D : Bytes → Bytes) (iv data out0 : Bytes) (ho : out0.length = data.length) :
+    (doEncrypt E iv data out0).data = data ∧ (doDecrypt D iv data out0).data = data ∧
+    ((doEncrypt E iv data out0).err ≠ none → (doEncrypt E iv data out0).out = out0) ∧
+    ((doDecrypt D iv data out0).err ≠ none → (doDecrypt D iv data out0).out = out0) := by
+  by_cases h : data.length = 0 ∨ data.length % 16 ≠ 0
+  · obtain ⟨⟨e, he⟩, ⟨e', he'⟩⟩ := ige_refuses E D iv data out0 h
+    rw [he, he']
+    simp
+  · have h1 : 0 < data.length := by omega
+    have h2 : data.length % 16 = 0 := by omega
+    obtain ⟨he, hd⟩ := ige_bytes_eq_spec E D iv data out0 h1 h2 ho
+    rw [he, hd]
+    simp
+
+example : (List.replicate 17 (0xA5 : UInt8)).length = (zeros 17).length := by decide
+
+/-- the two SHA-1 inputs of `tmp_aes_key` for one `new_nonce` and two different `server_nonce`s are different
+byte strings (so that the hypothesis of the next theorem is an instance of collision-freeness, not of luck) -/
+theorem tempKey_inputs_differ (n s s' : Nat) (hs : s < 2 ^ 128) (hs' : s' < 2 ^ 128) (hne : s ≠ s') :
+    beBytes n 32 ++ beBytes s 16 ≠ beBytes n 32 ++ beBytes s' 16 := by
+  intro h
+  have h16 : (2 : Nat) ^ 128 = 256 ^ 16 := by decide
+  have e := List.append_cancel_left h
+  have := congrArg fromBE e
+  rw [fromBE_beBytes 16 s (by omega), fromBE_beBytes 16 s' (by omega)] at this
+  exact hne this
+
+/-- **The temporary key depends on the server nonce too** (and on the new nonce: second part): for one
+`new_nonce` and two `server_nonce`s whose SHA-1 inputs do not collide, `generateTempKeys` gives two different
+keys; likewise for one `server_nonce` and two `new_nonce`s. -/
+theorem tempKeys_separate (H : Bytes → Bytes) (hH : ∀ x, (H x).length = 20) (n n' s s' : Nat)
+    (hn : n < 2 ^ 256) (hn' : n' < 2 ^ 256) (hs : s < 2 ^ 128) (hs' : s' < 2 ^ 128) :
+    (H (beBytes n 32 ++ beBytes s 16) ≠ H (beBytes n 32 ++ beBytes s' 16) →
+      (generateTempKeys H n s).1 ≠ (generateTempKeys H n s').1) ∧
+    (H (beBytes n 32 ++ beBytes s 16) ≠ H (beBytes n' 32 ++ beBytes s 16) →
+      (generateTempKeys H n s).1 ≠ (generateTempKeys H n' s).1) := by
+  constructor
+  · intro hcol h
+    rw [tempKeys_eq_spec H hH n s hn hs, tempKeys_eq_spec H hH n s' hn hs'] at h
+    simp only [tempKeySpec] at h
+    exact hcol (List.append_inj_left h (by rw [hH, hH]))
+  · intro hcol h
+    rw [tempKeys_eq_spec H hH n s hn hs, tempKeys_eq_spec H hH n' s hn' hs] at h
+    simp only [tempKeySpec] at h
+    exact hcol (List.append_inj_left h (by rw [hH, hH]))
+
+/-- satisfiable: `tailHash` (Lemmas/C05Wrap) reads the last 8 bytes of a 48-byte input and separates the server nonces 7 and 8 -/
+example : (∀ x, (tailHash x).length = 20) ∧ (5 : Nat) < 2 ^ 256 ∧ (7 : Nat) < 2 ^ 128 ∧ (8 : Nat) < 2 ^ 128 ∧
+    tailHash (beBytes 5 32 ++ beBytes 7 16) ≠ tailHash (beBytes 5 32 ++ beBytes 8 16) :=
+  ⟨tailHash_length, by decide, by decide, by decide, by decide⟩
+
+/-- **No memory keyed by `new_nonce` alone (or by `server_nonce` alone) computes the temporary keys** (the class
+of C05-m17): whatever `f` answers for `new_nonce = n` — say, the keys it derived when it first saw `n`, together
+with `s` — it is wrong for `(n, s)` or for `(n, s')`, for every two server nonces whose SHA-1 inputs do not
+collide; and the same with the roles of the nonces exchanged. A sequence of two calls that differ in the other
+nonce only shows it; single calls and calls that differ in both nonces do not. -/
+theorem tempKeys_no_partial_memo (H : Bytes → Bytes) (hH : ∀ x, (H x).length = 20) (n n' s s' : Nat)
+    (hn : n < 2 ^ 256) (hn' : n' < 2 ^ 256) (hs : s < 2 ^ 128) (hs' : s' < 2 ^ 128)
+    (f : Nat → Bytes × Bytes) :
+    (H (beBytes n 32 ++ beBytes s 16) ≠ H (beBytes n 32 ++ beBytes s' 16) →
+      f n ≠ generateTempKeys H n s ∨ f n ≠ generateTempKeys H n s') ∧
+    (H (beBytes n 32 ++ beBytes s 16) ≠ H (beBytes n' 32 ++ beBytes s 16) →
+      f s ≠ generateTempKeys H n s ∨ f s ≠ generateTempKeys H n' s) := by
+  have hsep := tempKeys_separate H hH n n' s s' hn hn' hs hs'
+  constructor
+  · intro hcol
+    by_cases h : f n = generateTempKeys H n s
+    · right
+      intro h'
+      exact hsep.1 hcol (by rw [← h, ← h'])
+    · exact Or.inl h
+  · intro hcol
+    by_cases h : f s = generateTempKeys H n s
+    · right
+      intro h'
+      exact hsep.2 hcol (by rw [← h, ← h'])
+    · exact Or.inl h
+
+example : (∀ x, (tailHash x).length = 20) ∧
+    tailHash (beBytes 5 32 ++ beBytes 7 16) ≠ tailHash (beBytes 5 32 ++ beBytes 8 16) :=
+  ⟨tailHash_length, by decide⟩
+
 /-! ## defects D4 of the un-repaired tree, on the model of the code as it was (`Mtv.Ige.Orig`) -/
 
 /-- D4a. Before the repair the cut-point search tried 1..15 bytes of padding only: an answer that a
